@@ -74,9 +74,11 @@ func (gw *eventBasedGateway) run(ctx context.Context, sender tracing.ISenderHand
 					actionTransformer: func(sequenceFlowId *schema.IdRef, action IAction) IAction {
 						// only the first one is to flow
 						if atomic.CompareAndSwapInt32(&first, 0, 1) {
+							verifAt("evgw.determined")
 							gw.tracer.Send(DeterminationMadeTrace{Node: gw.element})
 							for terminationCandidateId, ch := range terminationChannels {
 								if sequenceFlowId != nil && terminationCandidateId != *sequenceFlowId {
+									verifAt("evgw.withdraw")
 									ch <- true
 								}
 								close(ch)
